@@ -42,6 +42,24 @@ fn u64_value(rng: &mut Rng) -> u64 {
     }
 }
 
+fn monitor_amp(out: &mut Out, a0: u64, a1: u64, now: u64, h0: u64, h1: u64, r: &Outcome<u64>, replay: &serde_json::Value) {
+    // for a ramp that has started the value is the linear interpolation, between both ends; never a panic
+    out.monitor_evals += 1;
+    match r {
+        Outcome::Panic(m) => out.monitor_fail("C04", &format!("compute_amp_factor aborted ({m})"), replay.clone()),
+        Outcome::Ok(a) => {
+            if *a < a0.min(a1) || *a > a0.max(a1) { out.monitor_fail("C04", "effective amp outside [min(start,target), max(start,target)]", replay.clone()); }
+            if now >= h0 && *a != amp_expected(a0, a1, now, h0, h1) { out.monitor_fail("C04", "effective amp is not the linear interpolation in block height", replay.clone()); }
+            out.count("amp:ok");
+            if now < h1 && now > h0 && a0 != a1 { out.nontrivial_key(hash64(&[a0 as u128, a1 as u128, now as u128, h0 as u128, h1 as u128])); out.count("amp:inside_ramp"); }
+        }
+        Outcome::Err(_) => {
+            if now >= h0 { out.monitor_fail("C04", "compute_amp_factor returned None although the ramp has started", replay.clone()); }
+            out.count("amp:none");
+        }
+    }
+}
+
 fn amp_pure(out: &mut Out, rng: &mut Rng, n: u64) {
     let mut cases: Vec<(u64, u64, u64, u64, u64)> = vec![
         (100, 9, 12_400, 12_345, 30_000), (100, 1000, 20_000, 12_345, 30_000), (1, 1_000_000, 12_346, 12_345, 22_345),
@@ -69,21 +87,7 @@ fn amp_pure(out: &mut Out, rng: &mut Rng, n: u64) {
     for (a0, a1, now, h0, h1) in cases {
         let replay = json!({"kind": "pure_compute_amp_factor", "initial_amp": a0, "target_amp": a1, "height": now, "start": h0, "stop": h1});
         let r = impl_amp(a0, a1, now, h0, h1);
-        // monitor: for a ramp that has started the value is the linear interpolation, between both ends; never a panic
-        out.monitor_evals += 1;
-        match &r {
-            Outcome::Panic(m) => out.monitor_fail("C04", &format!("compute_amp_factor aborted ({m})"), replay.clone()),
-            Outcome::Ok(a) => {
-                if *a < a0.min(a1) || *a > a0.max(a1) { out.monitor_fail("C04", "effective amp outside [min(start,target), max(start,target)]", replay.clone()); }
-                if now >= h0 && *a != amp_expected(a0, a1, now, h0, h1) { out.monitor_fail("C04", "effective amp is not the linear interpolation in block height", replay.clone()); }
-                out.count("amp:ok");
-                if now < h1 && now > h0 && a0 != a1 { out.nontrivial_key(hash64(&[a0 as u128, a1 as u128, now as u128, h0 as u128, h1 as u128])); out.count("amp:inside_ramp"); }
-            }
-            Outcome::Err(_) => {
-                if now >= h0 { out.monitor_fail("C04", "compute_amp_factor returned None although the ramp has started", replay.clone()); }
-                out.count("amp:none");
-            }
-        }
+        monitor_amp(out, a0, a1, now, h0, h1, &r, &replay);
         out.sample(replay.clone());
         out.case("c04_amp", &format!("({}, {}, {}, {}, {})", a0, a1, now, h0, h1), &obs(&r, |a| vec![a.to_string()]), replay);
     }
@@ -349,18 +353,7 @@ fn curve_pure(out: &mut Out, rng: &mut Rng, n: u64) {
             let mut rp = replay.clone();
             rp["fees_protocol_swap_burn"] = json!([f.0.to_string(), f.1.to_string(), f.2.to_string()]);
             out.count(match &cs { Outcome::Ok(_) => "cswap:ok", Outcome::Err(_) => "cswap:err", Outcome::Panic(_) => "cswap:panic" });
-            out.monitor_evals += 1;
-            match (&cs, &s) {
-                (Outcome::Ok(c), Outcome::Ok(sr)) => {
-                    if b(c.ret) + b(c.sf) + b(c.pf) + b(c.bf) != b(sr.dy) { out.monitor_fail("C04", "proceeds + fees != curve output", rp.clone()); }
-                    let fl = |share: u128| b(sr.dy) * b(share) / b(DEC);
-                    if b(c.sf) != fl(f.1) || b(c.pf) != fl(f.0) || b(c.bf) != fl(f.2) { out.monitor_fail("C04", "a fee differs from floor(share * curve output)", rp.clone()); }
-                    if c.ret >= dst { out.monitor_fail("C04", "proceeds not below the ask reserve", rp.clone()); }
-                }
-                (Outcome::Ok(_), _) => out.monitor_fail("C04", "compute_swap succeeded although swap_to did not", rp.clone()),
-                (Outcome::Err(_), Outcome::Ok(_)) | (Outcome::Panic(_), Outcome::Ok(_)) => out.monitor_fail("C04", "compute_swap failed although swap_to succeeded and fees are valid", rp.clone()),
-                _ => {}
-            }
+            monitor_cswap(out, &cs, &s, dst, f, &rp);
             out.case("c04_cswap", &format!("({}, ({}, {}, {}, {}), ({}, {}, {}))", ramp_term(t), src, dst, uns, x, f.0, f.1, f.2),
                      &obs(&cs, |v| vec![v.ret.to_string(), v.spread.to_string(), v.sf.to_string(), v.pf.to_string(), v.bf.to_string()]), rp);
         }
@@ -397,6 +390,21 @@ fn dust_log(out: &mut Out, kind: &str, loss: &str, amp: u64, before: [u128; 3], 
     use std::io::Write;
     let mut f = std::fs::OpenOptions::new().create(true).append(true).open(format!("{}/dust.csv", out.dir)).unwrap();
     writeln!(f, "{},{},{},{},{},{},{},{},{}", kind, loss, amp, before[0], before[1], before[2], after[0], after[1], after[2]).unwrap();
+}
+
+fn monitor_cswap(out: &mut Out, cs: &Outcome<Swap5>, s: &Outcome<Res3>, dst: u128, f: (u128, u128, u128), rp: &serde_json::Value) {
+    out.monitor_evals += 1;
+    match (cs, s) {
+        (Outcome::Ok(c), Outcome::Ok(sr)) => {
+            if b(c.ret) + b(c.sf) + b(c.pf) + b(c.bf) != b(sr.dy) { out.monitor_fail("C04", "proceeds + fees != curve output", rp.clone()); }
+            let fl = |share: u128| b(sr.dy) * b(share) / b(DEC);
+            if b(c.sf) != fl(f.1) || b(c.pf) != fl(f.0) || b(c.bf) != fl(f.2) { out.monitor_fail("C04", "a fee differs from floor(share * curve output)", rp.clone()); }
+            if c.ret >= dst { out.monitor_fail("C04", "proceeds not below the ask reserve", rp.clone()); }
+        }
+        (Outcome::Ok(_), _) => out.monitor_fail("C04", "compute_swap succeeded although swap_to did not", rp.clone()),
+        (Outcome::Err(_), Outcome::Ok(_)) | (Outcome::Panic(_), Outcome::Ok(_)) => out.monitor_fail("C04", "compute_swap failed although swap_to succeeded and fees are valid", rp.clone()),
+        _ => {}
+    }
 }
 
 /// property predicates on one successful swap_to of the implementation
@@ -469,7 +477,78 @@ fn monitor_mint(out: &mut Out, t: Ramp5, amp: u64, r: [u128; 3], dep: [u128; 3],
     }
 }
 
+/// `./check C04 --replay FILE`: re-run the failing input of a replay file on the real code and report the monitors' verdict
+fn replay(args: &Args, path: &str) {
+    std::panic::set_hook(Box::new(|i| eprintln!("[panic] {i}")));
+    let mut out = Out::new(&args.out);
+    let j: serde_json::Value = serde_json::from_str(&std::fs::read_to_string(path).or_else(|_| std::fs::read_to_string(format!("../{path}"))).expect("replay file")).expect("json");
+    let fi = if j.get("failing_input").is_some() { j["failing_input"].clone() } else { j.clone() };
+    let fi = if fi.get("kind").is_none() && fi.get("replay").is_some() { fi["replay"].clone() } else { fi };
+    let us = |v: &serde_json::Value| -> u128 { v.as_str().map(|s| s.parse().unwrap()).or(v.as_u64().map(|x| x as u128)).unwrap_or(0) };
+    let u6 = |v: &serde_json::Value| -> u64 { v.as_u64().or(v.as_str().map(|s| s.parse().unwrap())).unwrap_or(0) };
+    let ramp = |v: &serde_json::Value| -> Ramp5 { (u6(&v["initial_amp"]), u6(&v["target_amp"]), u6(&v["height"]), u6(&v["start"]), u6(&v["stop"])) };
+    let mut rng = Rng::new(1);
+    match fi["kind"].as_str().unwrap_or("") {
+        "pure_compute_amp_factor" => {
+            let t = ramp(&fi);
+            let r = impl_amp(t.0, t.1, t.2, t.3, t.4);
+            println!("compute_amp_factor{:?} -> {}", t, match &r { Outcome::Ok(a) => format!("Some({a})"), Outcome::Err(_) => "None".into(), Outcome::Panic(m) => format!("panic: {m}") });
+            monitor_amp(&mut out, t.0, t.1, t.2, t.3, t.4, &r, &fi);
+        }
+        "ramp_history" => {
+            let ops: Vec<RampOp> = fi["ops"].as_array().unwrap().iter().map(|o| RampOp { dh: u6(&o["advance_blocks"]), owner: o["by_owner"].as_bool().unwrap(), fa: u6(&o["future_a"]), fb: u6(&o["future_block"]) }).collect();
+            let mut rp = json!({"kind": "ramp_history", "amp": fi["amp"], "ops": []});
+            if let Some((_, obsv)) = run_ramp_history(&mut out, u6(&fi["amp"]), &mut |k, _h, _c| ops.get(k).cloned(), &mut rp) { println!("observation: {}", obsv.join(" ")); }
+        }
+        "pure_curve" => {
+            let t = ramp(&fi["amp_state"]);
+            let r = [us(&fi["reserves"][0]), us(&fi["reserves"][1]), us(&fi["reserves"][2])];
+            let (io, ia) = (u6(&fi["offer_index"]) as usize, u6(&fi["ask_index"]) as usize);
+            let iu = 3 - io - ia;
+            let x = us(&fi["offer"]);
+            let s = impl_swap_to(t, x, r[io], r[ia], r[iu]);
+            println!("swap_to -> {}", match &s { Outcome::Ok(v) => format!("new_src {} new_dst {} swapped {}", v.ns, v.nd, v.dy), Outcome::Err(_) => "None".into(), Outcome::Panic(m) => format!("panic: {m}") });
+            if let (Outcome::Ok(sr), Outcome::Ok(dv), Some(amp)) = (&s, &impl_d(t, r[io], r[ia], r[iu]), amp_of(t)) { monitor_swap(&mut out, t, amp, (r[io], r[ia], r[iu]), x, sr, dv, &fi); }
+            if let Some(f) = fi.get("fees_protocol_swap_burn") {
+                let f = (us(&f[0]), us(&f[1]), us(&f[2]));
+                let cs = impl_cswap(t, r[io], r[ia], r[iu], x, f);
+                monitor_cswap(&mut out, &cs, &s, r[ia], f, &fi);
+            }
+            if let Some(d) = fi.get("deposit") {
+                let dep = [us(&d[0]), us(&d[1]), us(&d[2])];
+                let supply = us(&fi["lp_supply"]);
+                if let (Outcome::Ok(mv), Some(amp)) = (&impl_mint(t, dep, r, supply), amp_of(t)) { println!("mint -> {mv}"); monitor_mint(&mut out, t, amp, r, dep, supply, *mv, &fi); }
+            }
+        }
+        "pool_history" => {
+            use crate::c04_pool::{run_history, History, Op};
+            let uidx = |v: &serde_json::Value| -> usize { ["alice", "bob", "carol", "donor"].iter().position(|n| Some(*n) == v.as_str()).unwrap_or(0) };
+            let ops: Vec<Op> = fi["ops"].as_array().unwrap().iter().map(|o| match o["op"].as_str().unwrap() {
+                "provide" => Op::Provide { u: uidx(&o["user"]), d: [us(&o["amounts"][0]), us(&o["amounts"][1]), us(&o["amounts"][2])] },
+                "withdraw" => Op::Withdraw { u: uidx(&o["user"]), amount: us(&o["lp"]) },
+                "swap" => Op::Swap { u: uidx(&o["user"]), i: u6(&o["offer_index"]) as usize, j: u6(&o["ask_index"]) as usize, x: us(&o["offer"]),
+                                      ms: if o["max_spread_atomics"].is_null() { None } else { Some(us(&o["max_spread_atomics"])) } },
+                "collect" => Op::Collect,
+                "ramp" => Op::Ramp { owner: o["by_owner"].as_bool().unwrap(), fa: u6(&o["future_a"]), fb: u6(&o["future_block"]) },
+                "donate" => Op::Donate { i: u6(&o["index"]) as usize, x: us(&o["amount"]) },
+                _ => Op::Advance { dh: u6(&o["blocks"]) },
+            }).collect();
+            let f = &fi["fees_protocol_swap_burn"];
+            let k = &fi["asset_kinds_cw20"];
+            let h = History { amp: u6(&fi["amp"]), fees: (us(&f[0]), us(&f[1]), us(&f[2])), kinds: [k[0].as_bool().unwrap(), k[1].as_bool().unwrap(), k[2].as_bool().unwrap()], fixed: Some(ops), len: 0 };
+            run_history(&mut out, &mut rng, &h);
+        }
+        other => { println!("unknown replay kind {other:?}"); std::process::exit(2); }
+    }
+    for h in &out.known_hits { println!("KNOWN-FINDING (class {}): {}", h["class"].as_str().unwrap_or(""), h["what"].as_str().unwrap_or("")); }
+    let fails = out.monitor_failures.clone();
+    for f in &fails { println!("PROPERTY VIOLATED on the implementation: {}", f["what"].as_str().unwrap_or("")); }
+    out.finish();
+    if fails.is_empty() { println!("replay: no property violation on this input"); std::process::exit(0); } else { std::process::exit(1); }
+}
+
 pub fn run(args: &Args) {
+    if let Some(p) = &args.replay { replay(args, p); return; }
     let mut out = Out::new(&args.out);
     out.rule = "amp: non-trivial = height strictly inside a started ramp with start != target; ramp histories: non-trivial = an accepted ramp, \
                 distinct by (current amp, target, height, stop height)".into();
